@@ -188,6 +188,18 @@ func (f *Fam) genBegin(r *rand.Rand, s *Snapshot) string {
 				return fmt.Sprintf("begin t=%d p=%s v=%s e=-", now, prop, v)
 			}
 			a = live[r.Intn(len(live))]
+			// every third time a validator that is already jailed (for downtime, or by a burn) when the evidence arrives
+			if r.Intn(3) == 0 {
+				var jl []string
+				for _, x := range live {
+					if s.Vals[x].Jailed {
+						jl = append(jl, x)
+					}
+				}
+				if len(jl) > 0 {
+					a = jl[r.Intn(len(jl))]
+				}
+			}
 		}
 		mea := f.mea
 		age := pick(r, 0, 1*sec, mea-1, mea, mea+1, 10*mea)
